@@ -37,6 +37,11 @@ void hook(int kind, const volatile void* addr)
 		gtrace.push_back(e);
 		r = jrnd();
 	}
+	if (kind == 11 && (r % 3) == 0) {
+		// a handler thread that starts late (the scheduler did not run it yet): up to 0.25 s
+		usleep(100000 + (r >> 8) % 150000);
+		return;
+	}
 	if (kind >= 20 || kind == 1 || kind == 2) {
 		if ((int)(r % 100) < jitterPct) usleep((r >> 8) % 400);
 		else if ((r & 3) == 0) sched_yield();
